@@ -113,6 +113,20 @@ func runC01(t fataler, c c01Case) (string, c01Result) {
 		})
 		d.rdone = e.Call(func() {
 			buf := make([]byte, c.Buf)
+			type keptMsg struct {
+				got  []byte
+				want []byte
+			}
+			var kept []keptMsg
+			keptBytes := 0
+			defer func() {
+				// what Conn.Read handed out earlier must not change under later reads
+				for i, k := range kept {
+					if d.rerr == "" && !bytes.Equal(k.got, k.want) {
+						d.rerr = fmt.Sprintf("%s: the slice returned for message %d changed after later reads (first difference at %d)", d.name, i, firstDiff(k.got, k.want))
+					}
+				}
+			}()
 			for i, o := range d.ops {
 				want := expand(o.CKind, o.Seed, o.Len)
 				wantTyp := websocket.MessageBinary
@@ -152,6 +166,10 @@ func runC01(t fataler, c c01Case) (string, c01Result) {
 				if !bytes.Equal(got, want) {
 					d.rerr = fmt.Sprintf("%s: message %d %v arrived with %d bytes, %d written; first difference at %d", d.name, i, o, len(got), len(want), firstDiff(got, want))
 					return
+				}
+				if c.ReadAPI == "read" && keptBytes < 4<<20 {
+					kept = append(kept, keptMsg{got, want})
+					keptBytes += len(got)
 				}
 			}
 		})
